@@ -433,7 +433,7 @@ class ExtrasMixin:
         d = self.eval(node.args[0], frame)
         j = self.eval(node.args[1], frame)
         r = self.run.rec(d.oid)
-        ks = z3.Array(f"{r.sym}#order", z3.IntSort(), self.sort_of(r.ktype))
+        ks = self.order_array(r)
         # trusted structural fact: the j-th key of a dict (0 <= j < len) is a key of the dict
         base = self.run.old_heap.get(self.run.base_oid(d.oid)) if self.run.old_heap is not None else None
         dom0 = z3.Array(f"{r.sym}#dom", ks.sort().range(), z3.BoolSort())
@@ -488,8 +488,27 @@ class ExtrasMixin:
         d = self.eval(node.args[0], frame)
         j = self.eval(node.args[1], frame)
         r = self.run.rec(d.oid)
-        ks = z3.Array(f"{r.sym}#order", z3.IntSort(), self.sort_of(r.ktype))
+        ks = self.order_array(r)
         return self.symdict_val(d, r, z3.Select(ks, j.t))
+
+    def _loop_view(self):
+        v = (getattr(self, "loop_views", None) or [None])[-1]
+        if v is None:
+            raise E.Unsupported("visit_index / in_visit outside the invariants of a loop over a symbolic dict view")
+        return v
+
+    def spec_in_visit(self, node, frame):
+        """the key belongs to the key set the loop iterates over (the snapshot taken when the loop starts)"""
+        v = self._loop_view()
+        return VBool(z3.Select(v["dom"], self.term_of(self.eval(node.args[0], frame), v["ktype"])))
+
+    def spec_visit_index(self, node, frame):
+        """position at which the loop visits the key: defined for every key of the snapshot (each key is visited exactly once)"""
+        v = self._loop_view()
+        xt = self.term_of(self.eval(node.args[0], frame), v["ktype"])
+        p = v["pos"](xt)
+        self.run.assume(z3.Implies(z3.Select(v["dom"], xt), z3.And(p >= 0, p < v["n"], z3.Select(v["ks"], p) == xt)), persist=True)
+        return VInt(p)
 
     def spec_json_ok(self, node, frame):
         v = self.eval(node.args[0], frame)
